@@ -1,15 +1,16 @@
 package c12
 
 import (
+	"crypto/sha1"
+	"encoding/hex"
 	"encoding/json"
-	"fmt"
 	"math/rand"
+	"os"
+	"path/filepath"
 	"sort"
 	"strings"
-	"sync"
 
 	"verifharness/core"
-	"verifharness/tlcrun"
 )
 
 // The sequence families of spec/CssSeq.tla (declaration sequences of one shorthand family in one rule;
@@ -19,8 +20,9 @@ import (
 // sheets of the drawn choice vectors and compute their cases.
 
 type seqMember struct {
-	C []interface{}   `json:"c"`
-	L [][]interface{} `json:"l"`
+	Lab bool            `json:"lab,omitempty"`
+	C   []interface{}   `json:"c"`
+	L   [][]interface{} `json:"l"`
 	key string
 	fam string
 }
@@ -71,28 +73,75 @@ func coverSample(members []*seqMember, rng *rand.Rand, extra int) ([]*seqMember,
 	return out, len(labels)
 }
 
-func runSeq(r *core.Run) []*Case {
-	var mu sync.Mutex
-	var members []*seqMember
-	res := tlcrun.MustHold(r, tlcrun.Options{Module: "CssMC", Config: pickS(r, "CssMC.seq.quick.cfg", "CssMC.seq.thorough.cfg"), Workers: r.Pick(2, 3),
-		TimeoutSec: r.Pick(600, 1500), HeapGB: 4,
-		OnCase: func(raw []byte) {
-			var m seqMember
-			if err := json.Unmarshal(raw, &m); err != nil || len(m.C) == 0 {
-				r.Logf("seq label decode: %v: %.200s", err, raw)
-				return
-			}
-			b, _ := json.Marshal(m.C)
-			m.key = string(b)
-			m.fam, _ = m.C[0].(string)
-			mu.Lock()
-			members = append(members, &m)
-			mu.Unlock()
-		}})
-	if res == nil || len(members) == 0 {
-		r.Infra("CssMC seq families: no members exported")
+// The labels are a constant of the specification (they depend on neither esbuild nor the seed):
+// spec/css_seq_labels.quick.json holds what the quick configuration of CssMC exports, with a hash of the
+// modules and the configuration.  With a fresh file the sample is drawn before TLC runs and its cases are
+// computed by the same CssGen run as the seeded sheets, while CssMC model-checks the family in parallel; the
+// labels TLC exports in that run must equal the file's.  Stale or absent file (and the thorough tier): the
+// sample is drawn after CssMC has finished (C12_WRITE_VOCAB=1 rewrites the file).
+func seqHash(r *core.Run) string {
+	h := sha1.New()
+	for _, f := range []string{"Css.tla", "CssVals.tla", "CssSeq.tla", "CssMC.tla", "cfg/CssMC.quick.cfg"} {
+		b, _ := os.ReadFile(filepath.Join(r.Verif, "spec", f))
+		h.Write(b)
+	}
+	return hex.EncodeToString(h.Sum(nil))
+}
+
+func seqLabelPath(r *core.Run) string { return filepath.Join(r.Verif, "spec", "css_seq_labels.quick.json") }
+
+func (m *seqMember) index() {
+	b, _ := json.Marshal(m.C)
+	m.key = string(b)
+	m.fam, _ = m.C[0].(string)
+}
+
+func loadSeqLabels(r *core.Run) []*seqMember {
+	if r.Thorough() {
 		return nil
 	}
+	b, err := os.ReadFile(seqLabelPath(r))
+	if err != nil {
+		return nil
+	}
+	var f struct {
+		Hash    string       `json:"hash"`
+		Members []*seqMember `json:"members"`
+	}
+	if json.Unmarshal(b, &f) != nil || f.Hash != seqHash(r) || len(f.Members) == 0 {
+		return nil
+	}
+	for _, m := range f.Members {
+		m.index()
+	}
+	return f.Members
+}
+
+func writeSeqLabels(r *core.Run, members []*seqMember) {
+	ms := append([]*seqMember{}, members...)
+	sort.Slice(ms, func(i, j int) bool { return ms[i].key < ms[j].key })
+	b, _ := json.Marshal(map[string]interface{}{"hash": seqHash(r), "members": ms})
+	os.WriteFile(seqLabelPath(r), b, 0644)
+}
+
+// fingerprint of a label table (members with their labels, order-free)
+func seqFingerprint(members []*seqMember) string {
+	var lines []string
+	for _, m := range members {
+		var ls []string
+		for _, l := range m.L {
+			ls = append(ls, labelKey("", l))
+		}
+		sort.Strings(ls)
+		lines = append(lines, m.key+"="+strings.Join(ls, ";"))
+	}
+	sort.Strings(lines)
+	h := sha1.Sum([]byte(strings.Join(lines, "\n")))
+	return hex.EncodeToString(h[:])
+}
+
+// seqSample draws the covering sample; the result is input for CssGen (choice vectors) and the family of each id
+func seqSample(r *core.Run, members []*seqMember) ([]genInput, map[string]string) {
 	rng := rand.New(rand.NewSource(r.Seed + 4242))
 	var d, rs []*seqMember
 	for _, m := range members {
@@ -102,8 +151,8 @@ func runSeq(r *core.Run) []*Case {
 			rs = append(rs, m)
 		}
 	}
-	ds, nd := coverSample(d, rng, r.Pick(20, 1200))
-	rsS, nr := coverSample(rs, rng, r.Pick(0, 400))
+	ds, nd := coverSample(d, rng, r.Pick(10, 600))
+	rsS, nr := coverSample(rs, rng, r.Pick(0, 200))
 	r.Set("seq_families", map[string]int{"dseq_members": len(d), "dseq_labels": nd, "dseq_sampled": len(ds), "rseq_members": len(rs), "rseq_labels": nr, "rseq_sampled": len(rsS)})
 	var in []genInput
 	fam := map[string]string{}
@@ -112,7 +161,10 @@ func runSeq(r *core.Run) []*Case {
 		fam[id] = map[string]string{"dseq": "seq-d", "rseq": "seq-r"}[m.fam]
 		in = append(in, genInput{ID: id, Choice: m.C})
 	}
-	got := runGen(r, in, 1, r.Pick(2, 3))
+	return in, fam
+}
+
+func seqCasesOf(r *core.Run, in []genInput, fam map[string]string, got map[string]*Case) []*Case {
 	var out []*Case
 	for _, g := range in {
 		c := got[g.ID]
@@ -123,7 +175,5 @@ func runSeq(r *core.Run) []*Case {
 		c.Family = fam[g.ID]
 		out = append(out, c)
 	}
-	r.Logf("sequence families: %d members (%d+%d labels), %d cases", len(members), nd, nr, len(out))
-	_ = fmt.Sprint
 	return out
 }
